@@ -162,6 +162,26 @@ inductive GoLine where
   | new (content : GoString) (count : Int) (transmittedPerc : Int) (sourceID : GoString)
   deriving Repr, DecidableEq
 
+/-- `gossh.ConnMetadata` as far as translated code looks at it: `c.User()` and `c.RemoteAddr().String()` -/
+structure GoConnMeta where
+  user : GoString := []
+  remoteAddr : GoString := []
+  deriving Repr, DecidableEq
+
+/-- `*gossh.Permissions`: the callbacks only ever return nil -/
+abbrev GoPerms := Unit
+
+/-- `*user.User` of internal/user/server as far as code outside its package looks at it -/
+structure GoUser where
+  Name : GoString := []
+  deriving Repr, DecidableEq
+
+/-- the `jobCommons` of a configured scheduled / continuous job that translated code reads -/
+structure GoJob where
+  Name : GoString := []
+  AllowFrom : List GoString := []
+  deriving Repr, DecidableEq
+
 /-- the external functions translated code calls; their behaviour is a parameter of every
     theorem about generated code -/
 structure Ext where
@@ -189,5 +209,12 @@ structure Ext where
   fuel : Nat := 0
   /-- `funcs.NewFunctionStack`: the function names, the innermost argument, an error -/
   newFunctionStack : GoString → List GoString × GoString × GoErr := fun s => ([], s, none)
+  /-- `user.New(name, remoteAddress)` of internal/user/server -/
+  userNew : GoString → GoString → GoUser × GoErr := fun n _ => (⟨n⟩, none)
+  /-- `net.LookupIP(host)`, every address in its `String()` form -/
+  lookupIP : GoString → List GoString × GoErr := fun h => ([h], none)
+  /-- `config.Server.Schedule` and `config.Server.Continuous` -/
+  schedule : List GoJob := []
+  continuous : List GoJob := []
 
 end Dtail.Go
